@@ -12,6 +12,14 @@ na = [c["property_id"] for c in m.get("not_applicable", [])]
 for i in ids:
     if (i in claimed) == (i in na):
         print("property", i, "claimed/not_applicable mismatch"); ok = False
+import subprocess
+tracked = set(subprocess.run(["git", "-C", V, "ls-files", "evidence"], stdout=subprocess.PIPE).stdout.decode().split())
+for c in m["checks"]:
+    rel = os.path.relpath(c["evidence_file"], V)
+    if not os.path.exists(c["evidence_file"]):
+        print("claimed property", c["property_id"], "has no evidence file"); ok = False
+    elif rel not in tracked:
+        print("claimed property", c["property_id"], "evidence file is not committed:", rel); ok = False
 es = json.load(open("/root/.vp/EVIDENCE.schema.json"))
 for f in sorted(glob.glob(V + "/evidence/*.json")):
     try:
